@@ -459,6 +459,57 @@ theorem ctx_proposer_eq_spec_partial {H : ByteArray → ByteArray} (hH : ∀ x, 
   unfold Ctx.getBeaconProposer
   simp only [e1, e2, hpe, ne_eq, not_true_eq_false, if_false]
   rw [List.getElem?_eq_getElem (by omega)]
+/-- **`NewEpochsContext` succeeds** on every state whose current epoch has an active validator at the maximum
+effective balance (and at most 32 000 active validators): the three shufflings never fail, and no slot's proposer
+sampling reaches the cut-off. Together with `ctx_committee_eq_spec`, `ctx_count_eq_spec` and
+`ctx_proposer_eq_spec_partial` every answer of that context is the specification's. -/
+theorem newEpochsContext_total {H : ByteArray → ByteArray} (hH : ∀ x, (H x).size = 32) {cfg : Cfg} (ok : CfgOK cfg)
+    (hsrc : cfg.SHUFFLE_ROUND_COUNT ≤ 255) (vals : Array Val) (mixes : Nat → ByteArray) (slot : Nat)
+    (hv : vals.size ≤ 2 ^ 40)
+    (hm : HasMaxBalance cfg vals (activeIndices vals (slot / cfg.SLOTS_PER_EPOCH)))
+    (hsmall : (activeIndices vals (slot / cfg.SLOTS_PER_EPOCH)).size ≤ 32000) :
+    ∃ c, newEpochsContext H cfg vals mixes slot = .ok c := by
+  have hv63 : vals.size < 2 ^ 63 := by omega
+  have hspe : ¬ cfg.SLOTS_PER_EPOCH = 0 := by have := ok.spe_pos; omega
+  have hne : 0 < (activeIndices vals (slot / cfg.SLOTS_PER_EPOCH)).size := by
+    obtain ⟨p, hp, _⟩ := hm; omega
+  have sok := sampleOK_active hH hsrc vals hv (slot / cfg.SLOTS_PER_EPOCH) hne
+  have ex : ∀ e, ∃ se, computeShufflingEpoch H cfg vals mixes e = .ok se ∧ se.epoch = e ∧
+      se.activeIndices = activeIndices vals e := fun e =>
+    ⟨_, newShufflingEpoch_ok (H := H) ok vals (getSeed H cfg mixes e DOMAIN_BEACON_ATTESTER) e hv63, rfl, rfl⟩
+  -- the proposers
+  have hprops : ∃ ps, computeProposers H cfg vals mixes (slot / cfg.SLOTS_PER_EPOCH)
+      (activeIndices vals (slot / cfg.SLOTS_PER_EPOCH)) = .ok ps := by
+    unfold computeProposers
+    have hn0 : ¬ (activeIndices vals (slot / cfg.SLOTS_PER_EPOCH)).size = 0 := by omega
+    simp only [hn0, if_false]
+    refine ⟨_, mapM_ok _ (fun i => match computeProposerIndex H cfg vals (activeIndices vals (slot / cfg.SLOTS_PER_EPOCH))
+      (H (getSeed H cfg mixes (slot / cfg.SLOTS_PER_EPOCH) DOMAIN_BEACON_PROPOSER ++
+        putUint64 (slot / cfg.SLOTS_PER_EPOCH * cfg.SLOTS_PER_EPOCH + i))) with | .ok c => c | _ => 0) _ ?_⟩
+    intro i _
+    obtain ⟨c, hc, _⟩ := computeProposerIndex_total sok hm hsmall
+      (H (getSeed H cfg mixes (slot / cfg.SLOTS_PER_EPOCH) DOMAIN_BEACON_PROPOSER ++
+        putUint64 (slot / cfg.SLOTS_PER_EPOCH * cfg.SLOTS_PER_EPOCH + i)))
+    rw [hc]
+  obtain ⟨ps, hps⟩ := hprops
+  unfold newEpochsContext
+  simp only [hspe, if_false]
+  generalize slot / cfg.SLOTS_PER_EPOCH = cur at hps ⊢
+  obtain ⟨s0, e0, p0, a0⟩ := ex cur
+  obtain ⟨s1, e1, _, _⟩ := ex (cur - 1)
+  obtain ⟨s2, e2, _, _⟩ := ex (cur + 1)
+  rw [e0]
+  simp only [bind, Res.bind]
+  rw [p0, a0, hps]
+  by_cases hg : cur - 1 = cur
+  · simp only [hg, if_true, pure]
+    rw [e2]
+    exact ⟨_, rfl⟩
+  · simp only [hg, if_false]
+    rw [e1]
+    simp only
+    rw [e2]
+    exact ⟨_, rfl⟩
 /-! ## non-vacuity: the hypotheses are satisfiable -/
 
 /-- a small configuration (the "minimal" preset's committee constants) -/
